@@ -205,6 +205,13 @@ pub fn judge_registry(ctx: &mut Ctx, r: &PortableRegistry, d: &SDesc, replay: &d
 pub fn judge_without_compact_path(ctx: &mut Ctx, r: &PortableRegistry, d: &SDesc, replay: &dyn Fn(u32, Option<usize>) -> serde_json::Value) {
     let mut d2 = d.clone();
     d2.compact_path = None;
+    judge_compact_markers(ctx, r, &d2, "C18:compact-marker", "built with the compact path unset", replay)
+}
+
+/// Standalone structs of every member list with a compact member, built with settings `d2`: refused
+/// with the documented error, or carrying the compact marker exactly where the registry has a compact.
+pub fn judge_compact_markers(ctx: &mut Ctx, r: &PortableRegistry, d2: &SDesc, key: &str, how: &str, replay: &dyn Fn(u32, Option<usize>) -> serde_json::Value) {
+    let d = d2;
     let is_compact = |f: &Field<PortableForm>| matches!(r.resolve(f.ty.id).map(|t| &t.type_def), Some(TypeDef::Compact(_)));
     for t in &r.types {
         if !reg::is_generated(&t.ty) || d.is_substituted(&t.ty.path.segments) || t.ty.type_params.iter().any(|p| p.ty.is_some()) {
@@ -221,16 +228,17 @@ pub fn judge_without_compact_path(ctx: &mut Ctx, r: &PortableRegistry, d: &SDesc
                 continue;
             }
             ctx.begin_case(&format!("c18 (no compact path) type {} variant {:?}", t.id, vi));
-            match build_struct(r, &d2, fields, &[], "NoCompactPath") {
-                Err(e) if e == "error:CompactPathNone" => ctx.count("refused_without_compact_path", 1),
+            match build_struct(r, d2, fields, &[], "CompactMarkers") {
+                Err(e) if e == "error:CompactPathNone" && d2.compact_path.is_none() => ctx.count("refused_without_compact_path", 1),
                 Err(e) => ctx.count(&format!("without_compact_path[{e}]"), 1),
                 Ok(b) => {
                     let ItemKind::Struct(sf) = &b.item.kind else { continue };
                     let got: Vec<bool> = sf.fields.iter().map(|f| f.compact).collect();
+                    ctx.count("standalone_compact_markers_checked", 1);
                     if got.len() < want.len() || want.iter().zip(got.iter()).any(|(w, g)| w != g) {
                         ctx.violation(
-                            "C18:compact-marker",
-                            format!("type {} variant {:?} built with the compact path unset: compact members {:?} in the registry, markers {:?} on the struct `{}`", t.id, vi, want, got, b.tokens.chars().take(200).collect::<String>()),
+                            key,
+                            format!("type {} variant {:?} {how}: compact members {:?} in the registry, markers {:?} on the struct `{}`", t.id, vi, want, got, b.tokens.chars().take(200).collect::<String>()),
                             replay(t.id, vi),
                         );
                     }
